@@ -206,6 +206,19 @@ inline std::vector<probe::LogEntry> normalizedLog(const probe::Ctx& ctx, const r
     return e;
 }
 
+// C12 "each flag triggers only its own operator" and "none above the working level": the entries one execute() call appended to the log
+inline std::string checkOpsOfCall(const std::vector<probe::LogEntry>& log, size_t from, int flags, int lstop, int dim){
+    static const int flagOfOp[probe::NbOps] = {2, 4, 8, 16, 32, 1, 1, 1};
+    for(size_t i = from ; i < log.size() ; ++i){
+        const probe::LogEntry& e = log[i];
+        if(!(flagOfOp[e.op] & flags)){
+            std::ostringstream os; os << "execute() with flags " << flags << " applied " << probe::opName(e.op) << " (" << e.str(dim) << "), an operator that was not requested"; return os.str(); }
+        if(e.op <= probe::OpL2P && e.level < lstop){
+            std::ostringstream os; os << probe::opName(e.op) << " applied at level " << e.level << " above the upper working level " << lstop << " (" << e.str(dim) << ")"; return os.str(); }
+    }
+    return "";
+}
+
 inline std::string diffLogs(const std::vector<probe::LogEntry>& got, const std::vector<probe::LogEntry>& exp, int dim){
     size_t i = 0, j = 0;
     while(i < got.size() && j < exp.size()){
